@@ -23,13 +23,13 @@ TOL_SAME = 1e-12      # cores outside the requested range
 THR_NULL = 1e-11      # threshold that only removes numerically-zero directions
 
 
-def _mr(x):
-    """JSON <-> max_rank: None means unbounded."""
+def _mr(x, as_numpy=False):
+    """JSON <-> max_rank: None means unbounded; as_numpy hands the library a numpy integer instead of a Python int."""
     if x is None:
         return np.inf
     if isinstance(x, list):
-        return [np.inf if v is None else int(v) for v in x]
-    return int(x)
+        return [np.inf if v is None else (np.int64(v) if as_numpy else int(v)) for v in x]
+    return np.int64(x) if as_numpy else int(x)
 
 
 def _cap_list(max_rank, order):
@@ -165,7 +165,7 @@ class Run(object):
         if thr != 0:
             kw["threshold"] = thr
         if mr is not None:
-            kw["max_rank"] = _mr(mr)
+            kw["max_rank"] = _mr(mr, a.get("np_int", False))
         if op == "ortho_left":
             if "start_index" in a:
                 kw["start_index"] = a["start_index"]
@@ -649,6 +649,8 @@ def _choose(rnd, run, cfg, prop):
                 a["start_index"] = s
                 a["end_index"] = e
         if g == "trunc":
+            if rnd.random() < 0.15:
+                a["np_int"] = True
             c = rnd.random()
             if c < 0.45 or (op != "ortho" and c < 0.6):
                 a["max_rank"] = rnd.randint(1, 4)
